@@ -89,6 +89,8 @@ where
         schema,
     })?;
 
+    validation::validate_subscription_root_fields(&resolved_query)?;
+
     for (selection_id, _) in resolved_query.selections() {
         selection::validate_type_conditions(
             selection_id,
